@@ -3,8 +3,11 @@ package main
 import (
 	"fmt"
 	"go/ast"
+	"go/constant"
 	"go/types"
 	"hash/fnv"
+	"math/big"
+	"regexp/syntax"
 	"sort"
 	"strings"
 )
@@ -77,7 +80,7 @@ func (x *Exec) monitorCall(e *ast.CallExpr, st *State, lock bool) bool {
 // checkSinks: `sink <callee> requires <expr>` clauses of the unit under
 // verification are obligations at every call of that callee, evaluated in
 // the caller's scope (locals visible at the call).
-func (x *Exec) checkSinks(e *ast.CallExpr, st *State, calleeShort string, args []Value) {
+func (x *Exec) checkSinks(e *ast.CallExpr, st *State, calleeShort string, args []Value, recv Value) {
 	if x.c == nil {
 		return
 	}
@@ -94,6 +97,12 @@ func (x *Exec) checkSinks(e *ast.CallExpr, st *State, calleeShort string, args [
 		for i, a := range args {
 			if i < len(e.Args) {
 				cx.env[fmt.Sprintf("arg%d", i)] = cbind{a, x.info.TypeOf(e.Args[i])}
+			}
+		}
+		// recv denotes the receiver of a method call
+		if sel, ok := e.Fun.(*ast.SelectorExpr); ok && recv != nil {
+			if rt := x.info.TypeOf(sel.X); rt != nil {
+				cx.env["recv"] = cbind{recv, rt}
 			}
 		}
 		g := x.cbool(sk.C.Expr, cx)
@@ -314,4 +323,97 @@ func (x *Exec) havocObject(st *State, t types.Type, v Value) {
 		f := su.Field(i)
 		x.havocHeapAt(st, typeKey(pt.Elem())+"."+f.Name(), f.Type(), sc.T)
 	}
+}
+
+// regexMatch gives (*regexp.Regexp).MatchString its exact meaning when the
+// receiver is a package-level variable initialised with
+// regexp.MustCompile(<constant>), never assigned, and the pattern is a single
+// character class of ASCII runes: the string matches iff one of its bytes is
+// in the class (bytes >= 0x80 only form runes >= 0x80 or U+FFFD). The class is
+// read from the real source on every run with regexp/syntax.
+func (x *Exec) regexMatch(e *ast.CallExpr, st *State, args []Value) (Value, bool) {
+	sel, ok := unparen(e.Fun).(*ast.SelectorExpr)
+	if !ok || len(args) != 1 {
+		return nil, false
+	}
+	id, ok := unparen(sel.X).(*ast.Ident)
+	if !ok {
+		return nil, false
+	}
+	o, ok := x.info.ObjectOf(id).(*types.Var)
+	if !ok || o.Pkg() == nil || o.Parent() != o.Pkg().Scope() {
+		return nil, false
+	}
+	p := x.eng.pkgs[o.Pkg().Path()]
+	if p == nil {
+		return nil, false
+	}
+	init, never := findGlobalInit(p, o, true)
+	if init == nil || !never {
+		return nil, false
+	}
+	call, ok := unparen(init).(*ast.CallExpr)
+	if !ok || len(call.Args) != 1 {
+		return nil, false
+	}
+	if f, ok := p.TypesInfo.Uses[selIdent(call.Fun)].(*types.Func); !ok || f.FullName() != "regexp.MustCompile" {
+		return nil, false
+	}
+	tv, ok := p.TypesInfo.Types[call.Args[0]]
+	if !ok || tv.Value == nil || tv.Value.Kind() != constant.String {
+		return nil, false
+	}
+	re, err := syntax.Parse(constant.StringVal(tv.Value), syntax.Perl)
+	if err != nil {
+		return nil, false
+	}
+	re = re.Simplify()
+	var ranges []rune
+	switch re.Op {
+	case syntax.OpCharClass:
+		ranges = re.Rune
+	case syntax.OpLiteral:
+		if len(re.Rune) != 1 || re.Flags&syntax.FoldCase != 0 {
+			return nil, false
+		}
+		ranges = []rune{re.Rune[0], re.Rune[0]}
+	default:
+		return nil, false
+	}
+	for _, r := range ranges {
+		if r >= 0x80 {
+			return nil, false
+		}
+	}
+	sl, ok := args[0].(Sl)
+	if !ok {
+		return nil, false
+	}
+	comp := x.slComp(st, sl)[0]
+	k := Var(fmt.Sprintf("k!%d", x.nextEpoch()), x.ar.idxSort())
+	b := Select(comp, x.idxAdd(sl.Off, k))
+	bi := intInfo{8, false}
+	var in []*Term
+	for i := 0; i+1 < len(ranges); i += 2 {
+		lo := x.ar.constInt(big.NewInt(int64(ranges[i])), bi)
+		hi := x.ar.constInt(big.NewInt(int64(ranges[i+1])), bi)
+		if ranges[i] == 0 {
+			// bytes are never negative: no lower bound to state
+			in = append(in, x.ar.le(b, hi, bi))
+			continue
+		}
+		in = append(in, And(x.ar.le(lo, b, bi), x.ar.le(b, hi, bi)))
+	}
+	x.assumes["regexp semantics: "+o.Name()+" = "+tv.Value.ExactString()+" is a single ASCII character class (read from the source each run)"] = true
+	return Sc{Exists([]*Term{k}, And(x.ar.le(x.ar.idxC(0), k, idxII), x.ar.lt(k, sl.Len, idxII), Or(in...)))}, true
+}
+
+func selIdent(e ast.Expr) *ast.Ident {
+	switch v := unparen(e).(type) {
+	case *ast.Ident:
+		return v
+	case *ast.SelectorExpr:
+		return v.Sel
+	}
+	return nil
 }
